@@ -200,7 +200,9 @@ func HandleSelectStmt(p *SelectPlan, stmt *ast.SelectStmt) error {
 			return fmt.Errorf("handle OrderBy error: %v", err)
 		}
 
-		handleExtraFieldList(p, stmt)
+		if err := handleExtraFieldList(p, stmt); err != nil {
+			return fmt.Errorf("handle extra field list error: %v", err)
+		}
 
 		// 记录补列后的Fields长度, 后面的handler不会补列了
 		if stmt.Fields != nil {
@@ -278,7 +280,26 @@ func handleOrderBy(p *SelectPlan, stmt *ast.SelectStmt) error {
 	return nil
 }
 
-func handleExtraFieldList(p *SelectPlan, stmt *ast.SelectStmt) {
+// positionOfByField resolves a GROUP BY / ORDER BY position (GROUP BY 2) to the
+// index of the select field it denotes. A position is a reference to a result
+// column, so it must not be sent to the shards as an extra (constant) column.
+func positionOfByField(p *SelectPlan, stmt *ast.SelectStmt, field *ast.SelectField) (int, bool, error) {
+	pos, ok := field.Expr.(*ast.PositionExpr)
+	if !ok {
+		return 0, false, nil
+	}
+	if pos.N < 1 || pos.N > p.originColumnCount {
+		return 0, false, fmt.Errorf("unknown column '%d' in group/order clause", pos.N)
+	}
+	for i := 0; i < p.originColumnCount; i++ {
+		if stmt.Fields.Fields[i].WildCard != nil {
+			return 0, false, fmt.Errorf("position %d in group/order clause is not supported together with a wildcard field", pos.N)
+		}
+	}
+	return pos.N - 1, true, nil
+}
+
+func handleExtraFieldList(p *SelectPlan, stmt *ast.SelectStmt) error {
 	selectFields := make(map[string]int)
 	for i := 0; i < p.originColumnCount; i++ {
 		field := stmt.Fields.Fields[i]
@@ -294,6 +315,14 @@ func handleExtraFieldList(p *SelectPlan, stmt *ast.SelectStmt) {
 	for i := 0; i < len(p.groupByColumn); i++ {
 		p.groupByColumn[i] -= deleteNum
 		currColumnIndex := p.originColumnCount + i - deleteNum
+		if index, isPosition, err := positionOfByField(p, stmt, stmt.Fields.Fields[currColumnIndex]); err != nil {
+			return err
+		} else if isPosition {
+			stmt.Fields.Fields = append(stmt.Fields.Fields[:currColumnIndex], stmt.Fields.Fields[currColumnIndex+1:]...)
+			p.groupByColumn[i] = index
+			deleteNum++
+			continue
+		}
 		field, isColumnExpr := stmt.Fields.Fields[currColumnIndex].Expr.(*ast.ColumnNameExpr)
 		if !isColumnExpr {
 			continue
@@ -310,6 +339,14 @@ func handleExtraFieldList(p *SelectPlan, stmt *ast.SelectStmt) {
 	for i := 0; i < len(p.orderByColumn); i++ {
 		p.orderByColumn[i] -= deleteNum
 		currColumnIndex := p.originColumnCount + len(p.groupByColumn) + i - deleteNum
+		if index, isPosition, err := positionOfByField(p, stmt, stmt.Fields.Fields[currColumnIndex]); err != nil {
+			return err
+		} else if isPosition {
+			stmt.Fields.Fields = append(stmt.Fields.Fields[:currColumnIndex], stmt.Fields.Fields[currColumnIndex+1:]...)
+			p.orderByColumn[i] = index
+			deleteNum++
+			continue
+		}
 		field, isColumnExpr := stmt.Fields.Fields[currColumnIndex].Expr.(*ast.ColumnNameExpr)
 		if !isColumnExpr {
 			continue
@@ -322,6 +359,7 @@ func handleExtraFieldList(p *SelectPlan, stmt *ast.SelectStmt) {
 			deleteNum++
 		}
 	}
+	return nil
 }
 
 func createSelectFieldsFromByItems(p *SelectPlan, items []*ast.ByItem) ([]*ast.SelectField, error) {
